@@ -427,3 +427,36 @@ pub fn run_complete(args: &Args, rep: &mut Report) {
         rep.count_n("c17.complete.scalars", n);
     });
 }
+
+/// A sample of scalar values for the slow interpreters (Miri on 32-bit and big-endian targets): the first and last value of every
+/// encoded length, both sides of the surrogate gap, every value with a lead or continuation octet at the edge of its range, the
+/// noncharacters, and a few hundred seeded random ones -- pure helpers against core, and the typed / echoed / edited / submitted /
+/// recalled mini-session through a real Cli for a sixth of them.
+pub fn run_sample(args: &Args, rep: &mut Report) {
+    let mut list: Vec<u32> = vec![
+        0x20, 0x21, 0x22, 0x2d, 0x5c, 0x68, 0x7e, 0x80, 0x81, 0xa0, 0xbf, 0xc0, 0xff, 0x100, 0x3ff, 0x400, 0x7ff, 0x800, 0x801, 0xfff, 0x1000, 0x2028, 0x20ac, 0xcfff, 0xd000, 0xd7ff,
+        0xe000, 0xe001, 0xfdd0, 0xfeff, 0xfffd, 0xfffe, 0xffff, 0x10000, 0x10001, 0x1003f, 0x10040, 0x10348, 0x1ffff, 0x3ffff, 0x40000, 0xfffff, 0x100000, 0x10fffe, 0x10ffff, 0x9b, 0x85, 0x201b, 0x1f4db,
+    ];
+    let mut rng = crate::prng::Rng::derive(args.seed ^ 0x5a17, 0, 0);
+    let extra = if args.thorough { 1200 } else { 240 };
+    for _ in 0..extra {
+        list.push(crate::gen::random_scalar(&mut rng) as u32);
+    }
+    let n = list.len() as u64;
+    run_cases(args, "C17", n, rep, &mut |i, rep| {
+        if !mine(args, i) {
+            rep.cases -= 1;
+            return;
+        }
+        let ch = match char::from_u32(list[i as usize]) {
+            Some(c) => c,
+            None => return,
+        };
+        rep.count("c17.sample.scalars");
+        if pure_checks(ch, rep, args, i) && crate::prng::hash_u64s(&[i, 17]) % 6 == 0 {
+            rep.count("c17.sample.cli_mini_sessions");
+            let (x, y) = [("x", "y"), ("é", "𐍈"), ("€", "a")][i as usize % 3];
+            cli_checks(ch, x, y, rep, args, i);
+        }
+    });
+}
